@@ -138,6 +138,56 @@ def suite_config(ctx):
         else:
             lines.append('ed.hist c=%d changes=%s' % (c0, ','.join(str(x) for x in changes)))
             impl.append('%d %s' % (c.config['standard_version'], ','.join(outs)))
+    # values that are not one of the three integers: texts, floats, bytes, booleans, containers (accepted: nothing but 2006 / 2013 / 2020, and what equals them)
+    odd = ['2013', ' 2013 ', '2020', b'2020', 2006.5, 2013.5, 2020.9, None, True, False, [2013], (2020,), {2013}, 2013.000001, -2013, '2013.0']
+    for v in odd:
+        for how in ('init', 'set_config', 'set_configs', 'item'):
+            conn = cl.stub.StubConn(cl.CLOCK)
+            raised = False
+            try:
+                if how == 'init':
+                    c = Client(conn, config={'standard_version': v})
+                else:
+                    c = Client(conn, config={'standard_version': 2013})
+                    if how == 'set_config':
+                        c.set_config('standard_version', v)
+                    elif how == 'set_configs':
+                        c.set_configs({'standard_version': v})
+                    else:
+                        continue
+            except ConfigError:
+                raised = True
+            except Exception as e:  # noqa
+                raised = True
+            s.evaluations += 1
+            s.distinct.add('odd %r %s' % (v, how))
+            if not raised:
+                s.fail({'site': 'Client.' + ('__init__' if how == 'init' else how), 'input': repr(v), 'observed': 'accepted; edition in force %r' % (c.config['standard_version'],),
+                        'required': 'refused: only 2006, 2013 and 2020 are editions'})
+            elif how != 'init' and c.config['standard_version'] != 2013:
+                s.fail({'site': 'Client.' + how, 'input': repr(v), 'observed': 'edition in force %r after the refusal' % (c.config['standard_version'],), 'required': '2013 (unchanged)'})
+    # a refused change of several keys leaves every key as it was, wherever the bad edition stands among the keys
+    for _ in range(ctx.n(200, 3000)):
+        conn = cl.stub.StubConn(cl.CLOCK)
+        c = Client(conn, config={'standard_version': rng.choice([2006, 2013, 2020])})
+        before = dict(c.config)
+        keys = [('p2_timeout', 3), ('p2_star_timeout', 7), ('request_timeout', 9), ('tolerate_zero_padding', not c.config['tolerate_zero_padding']),
+                ('use_server_timing', not c.config['use_server_timing']), ('exception_on_negative_response', not c.config['exception_on_negative_response'])]
+        rng.shuffle(keys)
+        keys = keys[:rng.randrange(1, 5)]
+        bad = rng.choice([2012, 0, 2021, 2007])
+        pos = rng.randrange(len(keys) + 1)
+        items = keys[:pos] + [('standard_version', bad)] + keys[pos:]
+        raised = False
+        try:
+            c.set_configs(dict(items))
+        except ConfigError:
+            raised = True
+        s.evaluations += 1
+        changed = {k: c.config[k] for k in before if c.config.get(k) != before[k]}
+        if not raised or changed:
+            s.fail({'site': 'Client.set_configs', 'input': 'set_configs(%s)' % ', '.join('%s=%r' % kv for kv in items), 'observed': 'raised=%s, keys changed: %s' % (raised, changed),
+                    'required': 'ConfigError and the previous configuration in force for every key'})
     core.compare(s, lines, core.drv_batch(lines), impl)
     s.sample({'line': lines[-1], 'impl': impl[-1]})
     return s
